@@ -5,7 +5,7 @@ from lib import fw
 ORACLES = {
     "C02": {"drain_succeeds", "owner_only", "claim_succeeds", "reset_is_fresh"},
     "C04": {"active_liquidity_eq", "tick_gross_net_eq", "accumulator_shares_eq", "price_in_tick_interval", "reset_is_fresh"},
-    "C05": {"quote_eq_execute", "roundtrip_no_profit", "swap_in_debit_le_stated", "swap_out_eq_response", "swap_in_eq_response", "swap_out_le_stated"},
+    "C05": {"out_le_exact_curve", "quote_eq_execute", "roundtrip_no_profit", "swap_in_debit_le_stated", "swap_out_eq_response", "swap_in_eq_response", "swap_out_le_stated"},
     "C06": {"second_claim_zero", "claim_succeeds", "accumulator_shares_eq"},
     "C15": {"no_panic"},
 }
